@@ -24,7 +24,7 @@ import (
 
 type colUse struct {
 	intField, bigintConv, other bool
-	where                        string
+	where                       string
 }
 
 func meddlerColumns(c *core.Ctx) map[string]*colUse {
